@@ -57,27 +57,41 @@ let rabin_case line =
   let cs = z_of_string (next t) in let mn = z_of_string (next t) in let mx = z_of_string (next t) in
   show_outcome (check_rabin_params cs mn mx)
 
+let show_stored = function None -> "none" | Some c -> show_config c
+let open_str h has_hot st =
+  match open_config h st with
+  | None -> "open-none"
+  | Some c -> if open_raw_ok c has_hot then show_config c else "open-refused"
+
+(* `hot n opts0 ..`: init_repo then apply_config per record; per step repo.config(), both stored
+   files, write counts, and the config seen by the three ways of opening *)
 let repo_case line =
   let t = toks line in
+  let hot = ni t = 1 in
   let n = ni t in
   let o0 = read_opts t in
-  match init o0 Z0 Z0 with
+  match init_repo hot o0 Z0 Z0 with
   | (_, Panic) -> "init:panic"
   | (_, Refused e) -> Printf.sprintf "init:err:%d files=0" (nidx e)
-  | (c, Done) ->
-    let file = ref c in
-    let mem = ref c in
+  | ((st0, mem0), Done) ->
+    let snap cls mem st w =
+      Printf.sprintf "%s %s %s %s w=%d,%d %s %s %s" cls (show_config mem) (show_stored st.st_cold)
+        (if hot then show_stored st.st_hot else "none") w (if hot then w else 0)
+        (if hot then open_str OpenBoth true st else "na") (open_str OpenColdAlone false st)
+        (if hot then open_str OpenOnlyCold true st else "na") in
+    if not (open_raw_ok mem0 hot) then "init:err:open_raw" else begin
+    let st = ref st0 in
+    let mem = ref mem0 in
     let w = ref 1 in
-    let out = ref [Printf.sprintf "init:ok %s %s w=1" (show_config c) (show_config c)] in
+    let out = ref [snap "init:ok" mem0 st0 1] in
     for _ = 2 to n do
       let o = read_opts t in
-      let ((ws, s'), r) = apply_config o !mem in
-      List.iter (fun f -> file := f; incr w) ws;
-      mem := s';
-      let cls = match r with RChanged -> "changed" | RSame -> "same" | RRefused e -> "err:" ^ string_of_int (nidx e) | RPanic -> "panic" in
-      out := Printf.sprintf "%s %s %s w=%d" cls (show_config !mem) (show_config !file) !w :: !out
+      let ((st', mem'), r) = apply_config hot o !mem !st in
+      st := st'; mem := mem';
+      let cls = match r with RChanged -> incr w; "changed" | RSame -> "same" | RRefused e -> "err:" ^ string_of_int (nidx e) | RPanic -> "panic" in
+      out := snap cls !mem !st !w :: !out
     done;
-    String.concat " | " (List.rev !out)
+    String.concat " | " (List.rev ("end=ok" :: !out)) end
 
 let read_limit t =
   let k = ni t in let v = z_of_string (next t) in
@@ -114,7 +128,7 @@ let predict_case line =
     let s2 = match o1 with
       | None -> ""
       | Some o ->
-        let ((_, c'), r) = apply_config o c in
+        let ((_, c'), r) = apply_config false o c empty_store in
         (match r with RChanged -> " config=changed " ^ describe c' | RSame -> " config=same"
                     | RRefused e -> Printf.sprintf " config=refused:%d" (nidx e) | RPanic -> " config=panic") in
     s1 ^ s2 ^ " lim=" ^ lim
